@@ -37,6 +37,36 @@ def oracle(tr):
                 snd = hexname(fld(l, "sender"))
                 if snd not in ("org.freedesktop.DBus", me) and snd not in writers and not (me is None and snd is None):
                     bad.append((None, "step %d: connection %d received a message with sender %r while connection %d (%s) was writing raw bytes: %s" % (i, cid, snd, actor, me, l[:160])))
+    # a client that does not read: once its queue at the bus is over max_outgoing_bytes nothing more is queued for it, whether addressed to it
+    # or matched by one of its rules - so nothing that was sent while it was stalled may turn up when it reads again
+    stalled_at = {}
+    for i, op in enumerate(tr.ops):
+        if i >= len(tr.steps):
+            break
+        per, closed = tr.steps[i]
+        if op[0] == "stall":
+            stalled_at[op[1]] = i
+        for c in closed:
+            stalled_at.pop(c, None)
+        if op[0] == "unstall" and op[1] in stalled_at:
+            since = stalled_at.pop(op[1])
+            late = {}
+            for j in range(since + 1, i):
+                if tr.ops[j][0] == "send":
+                    sent = tr.sent(j)
+                    nm = tr.unique.get(tr.ops[j][1])
+                    if sent and nm:
+                        late[(nm, fld(sent, "ser"))] = j
+            for j in range(0, since + 1):        # a sender that uses a serial twice cannot be told apart from itself: such keys say nothing
+                if tr.ops[j][0] == "send":
+                    sent = tr.sent(j)
+                    if sent:
+                        late.pop((tr.unique.get(tr.ops[j][1]), fld(sent, "ser")), None)
+            for l in per.get(op[1], []):
+                key = (hexname(fld(l, "sender")), fld(l, "ser"))
+                if key in late and fld(l, "t") in ("1", "4"):
+                    bad.append((None, "step %d: connection %d, whose queue was over max_outgoing_bytes since step %d, is handed a message sent at step %d "
+                                      "(the bus went on queueing for a client that does not read): %s" % (i, op[1], since, late[key], l[:160])))
     return bad
 
 
@@ -45,6 +75,10 @@ PROFILES = [
                                    "close": 3, "connect": 5}, "max_conns": 5}, None),
     ("hostile-bytes-small-limits", {"weights": {"hostile": 14, "preauth": 4, "signal": 10, "call": 8, "request": 8, "addmatch": 8, "close": 3, "connect": 5},
                                     "max_conns": 4, "big": (4096, 0.2)}, {"maxmsg": 4096, "rules": 8, "names": 4}),
+    # clients that stop reading while subscribed to broadcasts: what the bus queues for them is bounded (max_outgoing_bytes holds for every copy,
+    # addressed or not), and what they find when they read again is what the model says was queued
+    ("stalled-subscribers", {"weights": {"stall": 6, "unstall": 5, "signal": 22, "addmatch": 12, "call": 8, "request": 5, "hostile": 4, "close": 2, "connect": 5,
+                                         "reply": 4}, "max_conns": 4, "no_eavesdrop": True}, {"outgoing": 20000}),
 ]
 
 
@@ -354,6 +388,27 @@ def run_spin(ctx):
     ctx.coverage.setdefault("distribution", {})["spin"] = res
 
 
+def stalled_scripts():
+    """a subscriber that stops reading: once its queue is over max_outgoing_bytes the bus queues nothing more for it - broadcast copies
+    included -, keeps serving everybody else, and hands it exactly what was queued before when it reads again"""
+    from ..bus import method_call, signal_msg, BUS, BUS_PATH
+    hello = lambda: method_call(1, BUS, BUS_PATH, BUS, "Hello").marshal()
+    add = lambda s, r: method_call(s, BUS, BUS_PATH, BUS, "AddMatch", "s", [r]).marshal()
+    base = [("connect", 0, 0, False), ("send", 0, hello())] + [x for c in (1, 2, 3) for x in (("connect", c, 0, False), ("send", c, hello()))]
+    out = []
+    out.append(base + [("send", 1, add(2, b"type='signal',interface='x.y'")), ("stall", 1)] +
+               [("send", 2, signal_msg(10 + k, "/a", "x.y", "Tick", "s", [b"n%d" % k]).marshal()) for k in range(6)] +
+               [("unstall", 1), ("send", 3, signal_msg(30, "/a", "x.y", "After", "s", [b"z"]).marshal())])
+    out.append(base + [("send", 1, add(2, b"type='signal'")), ("send", 3, add(2, b"type='signal'")), ("stall", 1),
+                       ("send", 2, signal_msg(10, "/a", "x.y", "One", "s", [b"a"]).marshal()),
+                       ("send", 2, method_call(11, ":1.1", "/a", "x.y", "Call", "s", [b"b"]).marshal()),
+                       ("send", 2, signal_msg(12, "/a", "x.y", "Two", "s", [b"c"], dest=":1.1").marshal()),
+                       ("stall", 3), ("send", 2, signal_msg(13, "/a", "x.y", "Three", "s", [b"d"]).marshal()),
+                       ("unstall", 3), ("send", 2, signal_msg(14, "/a", "x.y", "Four", "s", [b"e"]).marshal()), ("unstall", 1),
+                       ("send", 2, signal_msg(15, "/a", "x.y", "Five", "s", [b"f"]).marshal())])
+    return out
+
+
 def run(ctx):
     check.lean_obligations(ctx, MODULE, THEOREMS)
     nh = 10 if ctx.quick() else 90
@@ -361,6 +416,7 @@ def run(ctx):
     buscheck.run_histories(ctx, 0, 0, oracle, seed_salt=99, label="corpus-of-classics", scripts=corpus())
     for i, (label, kw, limits) in enumerate(PROFILES):
         good = buscheck.run_histories(ctx, nh, nops, oracle, gen_kw=kw, limits=limits, seed_salt=100 + i, label=label)
+    buscheck.run_histories(ctx, 0, 0, oracle, limits={"outgoing": 20000}, seed_salt=98, label="stalled-subscriber-scenarios", scripts=stalled_scripts())
     run_acceptor(ctx)
     run_spin(ctx)
     ctx.coverage["rule"] = ("histories of ordinary bus traffic interleaved with hostile clients: mutated messages (fields dropped/duplicated/retyped/unknown/invalid, "
